@@ -391,7 +391,7 @@ class C10Engine:
         self.counters[k] = self.counters.get(k, 0) + n
 
     # ---- rendering of everything
-    def render_all(self, objs: Dict[str, Any]) -> Dict[str, Any]:
+    def render_all(self, objs: Dict[str, Any], db_first: bool = False) -> Dict[str, Any]:
         out: Dict[str, Any] = {}
 
         def r(key: str, o: Any, lang: str) -> None:
@@ -401,7 +401,8 @@ class C10Engine:
                 out[f"{key}.{lang}"] = ["exc", type(ex).__name__]
         # elements first, the database last: an element-level rendering must not depend on a database-level
         # rendering having been evaluated (successfully) just before
-        for h in sorted(self.w.m, key=lambda x: self.kinds[x] == "db"):
+        # (every other comparison evaluates the database first instead: the usual order of a caller)
+        for h in sorted(self.w.m, key=lambda x: (self.kinds[x] == "db") != db_first):
             o = objs[h]
             k = self.kinds[h]
             for lang in ("sql", "dbml"):
@@ -424,8 +425,9 @@ class C10Engine:
             fresh = realize(self.w, self.env.C, self.env.renderers, via_add=True)
         finally:
             self.w.m[self.db]["add_order"] = saved_order
-        a = self.render_all(self.real)
-        b = self.render_all(fresh)
+        self.ncompare = getattr(self, "ncompare", 0) + 1
+        a = self.render_all(self.real, db_first=self.ncompare % 2 == 0)
+        b = self.render_all(fresh, db_first=self.ncompare % 2 == 0)
         self.count("probe:compared-with-fresh-rebuild")
         if a != b:
             bad = [k for k in b if a.get(k) != b[k]]
